@@ -31,7 +31,7 @@ class _FixedClock:
         return "2026 01 01 00 00 00"
 
 
-def eblif_compose_job(tier, tags=(None, None, None), timeout_ms=300000, which="eblif"):
+def eblif_compose_job(tier, tags=(None, None, None), timeout_ms=300000, which="eblif", pfx="s", raw=False, fixture="eblif"):
     """EBLIFComposer.run(netlist, file) twice (two composer objects built by the real __init__) on the fixture
     'eblif': the netlist is left exactly as it was (every field, every data entry), both runs write the same
     sequence of texts, nothing raises -- for every connection pattern, every EBLIF.type tagging (absent included),
@@ -44,14 +44,21 @@ def eblif_compose_job(tier, tags=(None, None, None), timeout_ms=300000, which="e
         name = "C16/EBLIFComposer.run{eblif,tags=%s}" % ",".join("-" if t is None else t.split(".")[1] for t in tags)
     else:
         name = "C16/%s.run{eblif-fixture}" % {"verilog": "verilog.Composer", "edif": "ComposeEdif"}[which]
-    fxd = H.FIXTURES["eblif"]
+    fxd = H.FIXTURES[fixture]
     atoms = tuple(sorted({n for v in NAMES.values() for n in v})) + tuple(TYPES)
     caps = {(P, lst): len(kids) for (P, p_, lst), kids in fxd["shape"].items() if len(kids) > 3}
     # (the Verilog writer allocates a scratch Cable() per concatenation it writes)
     keys = (".NAME", "EBLIF.type") + (("EDIF.identifier", "EDIF.rename") if which == "edif" else ())
     u = Universe(fxd["live"], dict(Cable=16) if which == "verilog" else {}, 3, list_caps=caps,
                  keys=keys, atoms=atoms + ((True,) if which == "edif" else ()))
-    u, pre, fx = H.build("eblif", u=u)
+    u, pre, fx = H.build(fixture, pfx=pfx, u=u)
+    # bundles of more than one item are arrays based at 0 (as a reader produces them)
+    for c_, lst_ in ((("Port", "_pins"), ("Cable", "_wires")) if raw else ()):
+        for i_ in range(u.live[c_]):
+            if len(fxd["shape"].get((c_, i_, lst_), [])) > 1:
+                pre.sc[(c_, "_is_scalar")][i_] = False
+            pre.sc[(c_, "_lower_index")][i_] = 0
+            pre.sc[(c_, "_is_downto")][i_] = True
     kn, kt = u.keys.index(".NAME"), u.keys.index("EBLIF.type")
     A = []
     for c in FCE:
@@ -69,7 +76,7 @@ def eblif_compose_job(tier, tags=(None, None, None), timeout_ms=300000, which="e
                 pre.data[c][i][kt] = (False, 0) if t_ is None else (True, ATOMS.intern(t_))
     # port directions as an EBLIF reader sets them: LEAF.I input, LEAF.O output, model ports inputs
     from spydrnet.ir.port import Port as _P
-    dirs = {0: _P.Direction.IN, 1: _P.Direction.IN, 2: _P.Direction.IN, 3: _P.Direction.OUT}
+    dirs = {0: _P.Direction.IN, 1: _P.Direction.IN, 2: _P.Direction.IN, 3: _P.Direction.OUT}     # a, A, I: in; O: out
     for p_, d_ in dirs.items():
         pre.sc[("Port", "_direction")][p_] = [x for x in u.dir_ids if ATOMS.vals[x] is d_][0]
     if True:
@@ -115,7 +122,7 @@ def eblif_compose_job(tier, tags=(None, None, None), timeout_ms=300000, which="e
     netl = Ref(u.gid("Netlist", 0), ("Netlist",))
     runs = []
     try:
-        for r in range(2):
+        for r in range(1 if raw else 2):
             n0 = len(events)
             if which == "eblif":
                 comp = Local(EBLIFComposer, {})
@@ -132,7 +139,12 @@ def eblif_compose_job(tier, tags=(None, None, None), timeout_ms=300000, which="e
                 call_function(ctx, fr, ComposeEdif.run, [comp, netl, "out.edf"], owner=ComposeEdif)
             runs.append(dict(events=events[n0:], heap=heap.copy(), exc=ctx.exc, bound=ctx.bound))
     except Unsupported as e:
+        if raw:
+            raise
         return [result(name, INCONCLUSIVE, "E1/symheap", detail="Unsupported: %s" % e, wall_s=time.time() - t0)]
+    if raw:
+        return dict(pre=pre, events=runs[0]["events"], A=A, ctx=ctx, u=u, fx=fx, exc=runs[0]["exc"], bound=runs[0]["bound"],
+                    flags=dict(write_blackbox=wb, write_cname=wc, defparam=dp, skip_constraints=sk))
     goals = {}
     if which == "edif":
         # documented side effects of the FIRST EDIF write: libraries / cells reordered by dependency, generated
@@ -282,3 +294,165 @@ def replay_eblif_compose(rp):
             return bool(probs), "; ".join(probs)[:600] or "both writes leave the netlist unchanged and agree"
         finally:
             shutil.rmtree(d, ignore_errors=True)
+
+
+def writer_injective_job(which, tier, tags=("EBLIF.subckt", "EBLIF.gate", "EBLIF.subckt"), timeout_ms=300000, fixture="eblif-bus"):
+    """A necessary condition of write-then-read, decided on the WRITER alone: two netlists on the same fixture that
+    differ in which pin is on which net are never written as the same text (otherwise no reader could tell them apart).
+    The real writer runs on two symbolic connection patterns s and t; if every write event carries equal text, the
+    pin->wire relations are equal."""
+    t0 = time.time()
+    prop = {"edif": "C03", "verilog": "C04", "eblif": "C18"}[which]
+    name = "%s/%s-writer{%s}/different-connections-give-different-text" % (prop, which, fixture)
+    try:
+        r1 = eblif_compose_job(tier, tags=tags, which=which, pfx="s", raw=True, fixture=fixture)
+        r2 = eblif_compose_job(tier, tags=tags, which=which, pfx="t", raw=True, fixture=fixture)
+    except Unsupported as e:
+        return [result(name, INCONCLUSIVE, "E1/symheap", detail="Unsupported: %s" % e, wall_s=time.time() - t0)]
+    u, fx = r1["u"], r1["fx"]
+    A = list(r1["A"]) + list(r2["A"])
+    e1, e2 = r1["events"], r2["events"]
+    if len(e1) != len(e2):
+        return [result(name, INCONCLUSIVE, "E1/symheap", detail="the two runs differ in the number of write events (%d / %d)" % (
+            len(e1), len(e2)))]
+    memo, same = {}, []
+    for (g1, t1), (g2, t2) in zip(e1, e2):
+        same.append(EQ(g1, g2))
+        same.append(IMPLIES(g1, text_eq(t1, t2, memo)))
+    p1, p2 = r1["pre"], r2["pre"]
+    differs = []
+    pins = [("OuterPin", o) for o in range(u.live["OuterPin"])]
+    if which != "eblif":       # BLIF joins a model port to the net of the same name implicitly: port pins are not written
+        pins += [("InnerPin", p) for p in range(u.live["InnerPin"])]
+    for c, k in pins:
+        differs.append(NE(p1.sc[(c, "_wire")][k], p2.sc[(c, "_wire")][k]))
+    if which == "verilog":
+        # netlists the Verilog reader can produce: every bit of a module port is joined to a net inside the module (the
+        # port's own net, or the nets of a header alias); a port bit left open inside cannot be written in Verilog
+        sh = fx["shape"]
+        for (P_, d_, lst_), ports in sh.items():
+            if P_ == "Definition" and lst_ == "_ports" and sh.get(("Definition", d_, "_cables")):
+                for port in ports:
+                    for pin in sh.get(("Port", port, "_pins"), []):
+                        A += [B(NE(p1.sc[("InnerPin", "_wire")][pin], NONE_ID)), B(NE(p2.sc[("InnerPin", "_wire")][pin], NONE_ID))]
+    ok = [B(NOT(r1["exc"])), B(NOT(r1["bound"])), B(NOT(r2["exc"])), B(NOT(r2["bound"]))]
+    funcs = sorted(fn_ident(f) for f in r1["ctx"].funcs_seen)
+    bounds = dict(u.describe(), fixture=fixture, writer=which, write_events=len(e1), tags=list(tags),
+                  compared="pin->wire of every instance pin" + ("" if which == "eblif" else " and every port pin"))
+    tw = {"both-return": M.check(A + ok, True, 120000)[0], "texts-can-be-equal": M.check(A + ok, AND(*same), 300000)[0]}
+    if any(v != "sat" for v in tw.values()):
+        return [result(name, VACUOUS, "E1/symheap", twins=tw, bounds=bounds, detail="reachability twin failed: %s" % tw)]
+    extra_results = []
+    if which == "edif":
+        # completeness of the net section: one (net ...) per wire of every written cell, one (portRef ...) per joined pin
+        from vf.e1.sym import ADD
+        count = lambda text: _sum([ITE(g_, 1, 0) for g_, t_ in e1 if isinstance(t_, str) and t_ == text])
+        n_wires = u.live["Wire"]
+        joined = _sum([ITE(NE(p1.sc[(c_, "_wire")][k_], NONE_ID), 1, 0) for c_ in ("InnerPin", "OuterPin") for k_ in range(u.live[c_])])
+        goal2 = NOT(AND(EQ(count("net "), n_wires), EQ(count("portref "), joined)))
+        st2, dt2, mdl2 = M.check(A + ok, goal2, timeout_ms)
+        oname2 = "%s/%s-writer{%s}/one-net-per-wire-one-portRef-per-joined-pin" % (prop, which, fixture)
+        if st2 == "unsat":
+            extra_results.append(result(oname2, DISCHARGED, "E1/symheap", queries=1, solver_s=dt2, twins=tw, bounds=bounds,
+                                        functions=funcs, detail="unsat", wall_s=time.time() - t0, paths=1))
+        elif st2 != "sat":
+            extra_results.append(result(oname2, INCONCLUSIVE, "E1/symheap", detail="solver: %s" % st2, bounds=bounds))
+        else:
+            rp2 = {"engine": "E1", "property": prop, "obligation": oname2, "kind": "edif_net_counts",
+                   "state": replay.heap_to_state(p1, mdl2), "netlist": u.gid("Netlist", 0)}
+            try:
+                viol2, txt2 = replay_edif_net_counts(rp2)
+            except Exception:
+                viol2, txt2 = False, "replay crashed: " + traceback.format_exc()[-400:]
+            extra_results.append(result(oname2, VIOLATED if viol2 else ERROR, "E1/symheap", queries=1, solver_s=dt2, twins=tw,
+                                        bounds=bounds, functions=funcs, replay=rp2 if viol2 else None,
+                                        detail=txt2 if viol2 else "counterexample did not reproduce: " + txt2,
+                                        wall_s=time.time() - t0))
+    st, dt, mdl = M.check(A + ok, AND(AND(*same), OR(*differs)), timeout_ms)
+    if st == "unsat":
+        return extra_results + [result(name, DISCHARGED, "E1/symheap", queries=3, solver_s=dt, twins=tw, bounds=bounds, functions=funcs,
+                       detail="unsat", wall_s=time.time() - t0, paths=1)]
+    if st != "sat":
+        return extra_results + [result(name, INCONCLUSIVE, "E1/symheap", detail="solver: %s" % st, bounds=bounds)]
+    fl = r1["flags"]
+    rp = {"engine": "E1", "property": prop, "obligation": name, "kind": "writer_injective", "which": which,
+          "state": replay.heap_to_state(p1, mdl), "state2": replay.heap_to_state(p2, mdl), "netlist": u.gid("Netlist", 0),
+          "write_blackbox": bool(replay.mval(mdl, fl["write_blackbox"])), "write_cname": bool(replay.mval(mdl, fl["write_cname"])),
+          "defparam": bool(replay.mval(mdl, fl["defparam"])), "skip_constraints": bool(replay.mval(mdl, fl["skip_constraints"]))}
+    try:
+        viol, txt = replay_writer_injective(rp)
+    except Exception:
+        viol, txt = False, "replay crashed: " + traceback.format_exc()[-400:]
+    return extra_results + [result(name, VIOLATED if viol else ERROR, "E1/symheap", queries=3, solver_s=dt, twins=tw, bounds=bounds,
+                   functions=funcs, replay=rp if viol else None,
+                   detail=txt if viol else "counterexample did not reproduce: " + txt, wall_s=time.time() - t0)]
+
+
+def _sum(xs):
+    from vf.e1.sym import ADD
+    acc = 0
+    for x in xs:
+        acc = ADD(acc, x)
+    return acc
+
+
+def replay_edif_net_counts(rp):
+    """the real EDIF writer on the real netlist: count (net and (portRef in the written file"""
+    import os
+    import shutil
+    import tempfile
+    from spydrnet.composers.edif.composer import ComposeEdif as CE
+    d = tempfile.mkdtemp(prefix="vf_cnt_")
+    try:
+        with replay.listener_config("none"):
+            objs = replay.build(rp["state"])
+            netlist = objs[rp["netlist"]]
+            wires = sum(len(c.wires) for l in netlist.libraries for df in l.definitions for c in df.cables)
+            joined = sum(len(w.pins) for l in netlist.libraries for df in l.definitions for c in df.cables for w in c.wires)
+            path = os.path.join(d, "o.edf")
+            CE().run(netlist, path)
+            text = open(path).read()
+        nets, refs = text.count("(net "), text.count("(portref ")
+        bad = nets != wires or refs != joined
+        return bad, "the written file has %d nets and %d portRefs, the netlist has %d wires and %d joined pins" % (nets, refs, wires, joined)
+    finally:
+        shutil.rmtree(d, ignore_errors=True)
+
+
+def replay_writer_injective(rp):
+    """two real netlists, the real writer on each: identical files although a pin sits on different nets"""
+    import os
+    import shutil
+    import tempfile
+    from spydrnet.composers.eblif.eblif_composer import EBLIFComposer
+    from spydrnet.composers.verilog.composer import Composer as VC
+    from spydrnet.composers.edif.composer import ComposeEdif as CE
+    d = tempfile.mkdtemp(prefix="vf_inj_")
+    try:
+        texts, conns = [], []
+        with replay.listener_config("none"):
+            for k, key in enumerate(("state", "state2")):
+                objs = replay.build(rp[key])
+                netlist = objs[rp["netlist"]]
+                path = os.path.join(d, "o%d" % k)
+                if rp["which"] == "eblif":
+                    EBLIFComposer(rp["write_blackbox"], rp["write_cname"]).run(netlist, path)
+                elif rp["which"] == "verilog":
+                    VC(None, rp["write_blackbox"], rp["defparam"], False, rp["skip_constraints"]).run(netlist, path)
+                else:
+                    CE().run(netlist, path)
+                texts.append("\n".join(l for l in open(path).read().split("\n") if "timeStamp" not in l))
+                conn = {}
+                for g, o in sorted(objs.items()):
+                    cls = type(o).__name__
+                    if cls == "OuterPin" or (cls == "InnerPin" and rp["which"] != "eblif"):
+                        w = o.wire
+                        conn[g] = None if w is None else (w.cable.name, list(w.cable.wires).index(w))
+                conns.append(conn)
+        diff = [g for g in conns[0] if conns[0][g] != conns[1].get(g)]
+        bad = texts[0] == texts[1] and bool(diff)
+        return bad, ("the %s writer produced IDENTICAL text (%d characters) for two netlists in which pin %s is on %s vs %s" % (
+            rp["which"], len(texts[0]), diff[:1], conns[0].get(diff[0]) if diff else None, conns[1].get(diff[0]) if diff else None)
+            if bad else "texts %s, connections %s" % ("equal" if texts[0] == texts[1] else "differ", "differ" if diff else "equal"))
+    finally:
+        shutil.rmtree(d, ignore_errors=True)
